@@ -21,7 +21,7 @@ BASE = dict(
     Reqs=S(2, 4), Vols=S(0, 1, 3), Modes=S("on"), TrigSets=S("none", "final", "partial"),
     TopUps=S(6), MaxSteps=5, MaxSess=1, Limit=100, Pads=S(0), CreateConts=S(0),
     TwoEntries=False, BadRefs=False, WellBehaved=False, AskAfterFinal=True, KnownDebitNoFui=True, Lrsn0=0, Recharges=True, Traffic=S(), SinkAnswers=S(204), AddrKinds=S("none"), ContShapes=S("single"), ChidModes=S(0), UpdNfcs="{FALSE}",
-    Events=False, EvTypes=S(""),
+    Events=False, EvTypes=S(""), Faults=S("none"),
 )
 
 # clause -> invariant of ChfSeqMC that states it on the model
@@ -143,6 +143,9 @@ def cfg(pid, tier):
                **dict(wb, AcctChoices=S((5, 1), (0, 3)))),
             sl("mixed", 400 if q else 4000, MaxSteps=4 if q else 5, TopUps=S(), TrigSets=S("none", "final"), Recharges=False,
                ContShapes=S("on_on", "on_off"), **dict(wb, AcctChoices=S((10, 1), (21, 2)), Vols=S(0, 2), Reqs=S(4))),
+            # the account balance function unreachable while single requests are served
+            sl("abmf-down", 500 if q else 5000, Faults=S("none", "abmf"), MaxSteps=5 if q else 6, TopUps=S(), TrigSets=S("none", "final"),
+               Recharges=False, **dict(wb, AcctChoices=S((9, 2), (10, 1)), Vols=S(0, 4), Reqs=S(4))),
         ]
     elif pid == "C12":
         base = dict(BadRefs=True, Reqs=S(4), Vols=S(3), TopUps=S(), AcctChoices=S((9, 1)), Limit=6,
